@@ -3,6 +3,7 @@ package gen
 import (
 	"reflect"
 	"sort"
+	"sync"
 
 	"github.com/brocaar/lorawan"
 	"github.com/brocaar/lorawan/applayer/clocksync"
@@ -17,7 +18,17 @@ type Decoder struct {
 	Name string
 	New  func() any // fresh pointer value
 	Dir  bool       // UnmarshalBinary(uplink, data)
-	Lens []int      // lengths 0..64 at which all-zero or all-0x01 input of either direction is accepted (generator hint only)
+	lens []int      // see AcceptedLens
+}
+
+var probeLens sync.Once
+
+// AcceptedLens: the lengths 0..64 at which all-zero or all-0x01 input of either direction is accepted (generator hint
+// only). Found by trial on first call, not at start-up: a process that wants to meet the library in its pristine state
+// (C10 race-first-use) must not have every decoder run once before its test starts.
+func (d *Decoder) AcceptedLens() []int {
+	probeLens.Do(probeAllLens)
+	return d.lens
 }
 
 // Decode calls UnmarshalBinary on v.
@@ -143,6 +154,12 @@ func init() {
 			panic("gen.Decoders: " + d.Name + " has no UnmarshalBinary")
 		}
 		d.Dir = m.Type().NumIn() == 2
+	}
+}
+
+func probeAllLens() {
+	for i := range Decoders {
+		d := &Decoders[i]
 		// length hints: where does a benign input decode?
 		seen := map[int]bool{}
 		for n := 0; n <= 64; n++ {
@@ -167,8 +184,8 @@ func init() {
 			}
 		}
 		for n := range seen {
-			d.Lens = append(d.Lens, n)
+			d.lens = append(d.lens, n)
 		}
-		sort.Ints(d.Lens)
+		sort.Ints(d.lens)
 	}
 }
